@@ -131,7 +131,7 @@ def run(ctx):
     rwd = ctx.rule('R-WORD', 'withdraw role of _callback', minimum=2)
     rck = ctx.rule('R-CASKIND', 'withdraw CAS strong', minimum=1)
     for cfg, fb in sorted(fbs.items()):
-        lib_order.check(ctx, fb, cfg, ['yaclib::detail::BaseCore::_callback'], rwd, ro, rck)
+        ctx.guard(lambda: lib_order.check(ctx, fb, cfg, ['yaclib::detail::BaseCore::_callback'], rwd, ro, rck))
         ranges = [f for f in fb.fn.values() if f.qn == 'yaclib::detail::WaitRange' and f.cfg is not None]
         if len(ranges) < 4:
             ctx.broken('WaitRange instantiations missing (%d)' % len(ranges))
@@ -299,7 +299,7 @@ def run(ctx):
                 if not calls or len(calls[0].get('args', [])) != 3:
                     ctx.report(re_, key, f.where, 'the timed wait must use the predicate form (re-test _is_ready after '
                                'every wake-up and at the deadline)')
-        lib_core.check_nodiscard(ctx, fb, rn, lambda f: 'wait_impl.hpp' in f.file or 'wait_group.hpp' in f.file)
+        ctx.guard(lambda: lib_core.check_nodiscard(ctx, fb, rn, lambda f: 'wait_impl.hpp' in f.file or 'wait_group.hpp' in f.file))
     # ---- type witnesses
     wit = os.path.join(facts.VERIF, 'witness', 'wait_shared.cpp')
     for nfail in (0, 1, 2, 3, 4):
